@@ -381,6 +381,40 @@ def asgfrom_present(rng, kind):
     return ops + dumps(kind, (0,))
 
 
+def initasg_cases(rng):
+    """Dic<String> d; ...; d = { {k1, d[j1]}, {k2, d[j2]}, ... } : initializer-list assignment whose values are references to
+    the map's own values (8e6a06f).  With two or three pairs every j is present: a later `d[j]` that inserts would invalidate
+    the earlier reference inside the caller's expression - that is the known finding index-assign-from-own-element again."""
+    kind = "ds"
+    cls, keys = pool_for(kind, rng)
+    keys = list(dict.fromkeys(kstr(kind, k) for k in keys if 0 not in k))
+    present = [k for k in keys if rng.random() < 0.7] or keys[:1]
+    # values long enough to live on the heap (a freed value is then a sanitizer report, not a lucky read)
+    ops = ["ds set 0 %s %s" % (k, hexs(bytes(rng.choice(b"vwxyz") for _ in range(rng.choice([0, 3, 20, 40])))))
+           for k in present]
+    for _ in range(rng.randrange(1, 4)):
+        m = rng.randrange(1, 4)
+        if m == 1:
+            pr = [rng.choice(keys), rng.choice(keys)]
+        else:
+            pr = []
+            for _ in range(m):
+                pr += [rng.choice(keys), rng.choice(present)]
+        ops.append("ds initasg 0 " + " ".join(pr))
+        ops += ["ds dump 0", "ds keys 0"]
+        # what the map holds now
+        if m == 1:
+            present = [pr[0]]
+        else:
+            present = list(dict.fromkeys(pr[0::2]))
+        if rng.random() < 0.5:
+            k = rng.choice(keys)
+            ops.append("ds set 0 %s %s" % (k, vstr(kind, rng)))
+            if k not in present:
+                present.append(k)
+    return ops + dumps(kind, (0,))
+
+
 def growth(rng, kind, n, start=None, removes=0.1, shared=None):
     """n distinct insertions (crossing the growth thresholds), interleaved removals and lookups.
     shared=(i0, i1): slot 3 is a second handle to the same table while insertions i0..i1 happen (a copy of the
@@ -466,6 +500,8 @@ def gen(rng, tier):
     for kind in ORDERED:
         for i in range(40 if q else 800):
             cases.append(asgfrom_present(rng, kind))
+    for i in range(60 if q else 1200):
+        cases.append(initasg_cases(rng))
     # 4. growth
     for kind in HASHED + SETS:
         for start in (None, 1, 3, 8, 64):
@@ -488,7 +524,7 @@ def gen(rng, tier):
     return cases
 
 
-MUT = ("asgfrom", "share", "addself", "set", "asg", "idx", "rem", "ins", "from", "addset", "add", "clear", "union", "inter", "diff", "clone")
+MUT = ("initasg", "asgfrom", "share", "addself", "set", "asg", "idx", "rem", "ins", "from", "addset", "add", "clear", "union", "inter", "diff", "clone")
 OBS = ("find", "has", "get", "cidx", "dump", "keys", "eq", "len", "cont", "any", "union", "inter", "diff", "idx")
 
 
@@ -708,6 +744,10 @@ def simulate(case):
             k = _k(kind, t[3]); a.setdefault(k, dflt); out.append("%s %d" % (VS(a[k]), len(a)))
         elif op == "asgfrom":
             v = a.setdefault(_k(kind, t[4]), dflt); a[_k(kind, t[3])] = v; out.append("ok %d" % len(a))
+        elif op == "initasg":
+            prs = t[3:]
+            vals = [(_k(kind, prs[i]), a.setdefault(_k(kind, prs[i + 1]), dflt)) for i in range(0, len(prs), 2)]
+            a.clear(); a.update(vals); out.append("ok %d" % len(a))
         elif op == "cidx": out.append("%s %d" % (VS(a.get(_k(kind, t[3]), dflt)), len(a)))
         elif op == "find":
             k = _k(kind, t[3]); out.append("some " + VS(a[k]) if k in a else "none")
@@ -902,7 +942,10 @@ LEVEL_NOTE = ("The loop/branch structure of the models is tied to the code by K 
               "reallocated the flat array (wrong value or use after free); not repairable inside operator[]; the generator excludes "
               "exactly that class (ordered `asgfrom` only with both keys present) and the KNOWN probe replays it on every run; hash "
               "containers get `m[k] = m[j]` with arbitrary keys, also at the growth thresholds (the model assumes g++'s right-operand-first "
-              "evaluation, confirmed by `raw`). String keys are NUL-free (strcmp vs memcmp disagree on embedded NUL). No "
+              "evaluation, confirmed by `raw`). Dic::operator=(initializer_list) with values that are references to the map's own values "
+              "(repaired 8e6a06f; before: cleared first, then read emptied / freed values) is generated for Dic<String> (op `initasg`) "
+              "and is, in the model, reading the values then Map.add into an empty map, i.e. a history the refinement theorem covers; "
+              "multi-pair lists keep every referenced key present for the same reason as above. String keys are NUL-free (strcmp vs memcmp disagree on embedded NUL). No "
               "statement is left partial; hashmap_remove_head_counterexample / hashmap_eq_order_counterexample are about transcriptions of "
               "the pre-fix code kept in AslProps/C02.lean (their premise - the model's enumeration order is the code's - is what `raw` "
               "checks).")
